@@ -11,6 +11,52 @@ TB = ("Trusted: Lean 4.33 kernel; axioms of every property theorem printed per r
       "lxml/libxml2 and CPython are modelled, not verified. ")
 
 CLAIMED = {
+    "C11": dict(
+        text="Proof (mapping part) / proof-partial (view part): TagAttributes/Attribute over lxml's store are modelled in Lean "
+             "(Clark keys, in-scope default namespace, per-qualified-name view cache, __resolve_accessor, _etree_key, "
+             "__getitem__/__setitem__/__delitem__/__iter__/__len__/get/__contains__, Attribute.value, _set_new_key); proved "
+             "for every state: the three accessor forms of one attribute reach the same store entry and different attributes "
+             "different entries; lookup, membership, assignment, deletion (KeyError iff missing), iteration and length are those "
+             "of a dictionary keyed by canonical names; a cached view shows and writes the dictionary value and keeps its last "
+             "value after removal through the name it is cached under (the view invariant is shown to be preserved by every "
+             "operation); c11_stale_view_exists proves that other earlier views are not told about removals - the recorded "
+             "finding. Tie to code: random operation sequences through the mapping and through held Attribute objects on five "
+             "element contexts, real results == compiled model after every step; a plain dict as property oracle.",
+        note=TB + "Partial: 'an attribute object obtained earlier stays a live view' holds for the cached object of a name "
+             "only (known findings stale-attribute-view, rename-to-alias-deletes). Elements are not re-parented during a "
+             "sequence (attribute keys after re-parenting across default-namespace scopes: finding recorded under C01/C10).",
+        technique="Lean 4 refinement theorems (store vs canonical dictionary; view-cache invariant) + differential correspondence",
+        design="3/C11",
+    ),
+    "C14": dict(
+        text="Proof: for every tree and tag node the expression location_path denotes (`/*` followed by `*[position()=k]` "
+             "steps, k counted among tag siblings) evaluates - from any context node, with any prefix map - to exactly that "
+             "node (c14_selects_self, over the C06 evaluator model); different tag nodes have different expressions and "
+             "different strings (c14_injective, c14_string_injective); the path consists only of indexed wildcard child steps "
+             "(c14_shape). That parse(location_path) is that expression is evaluated through the parser model for every "
+             "explored case. Tie to code: location_path of every tag node of forests reached by edit histories == model "
+             "string; evaluating it on the implementation from random context nodes under six ambient filter settings "
+             "returns exactly the node; strings pairwise distinct; independent of ambient filters.",
+        note=TB + "parse(location_path) = locationPathAst is established per explored case (driver), not as a theorem.",
+        technique="Lean 4 theorems over the evaluator model (induction on the path) + differential correspondence",
+        design="3/C14",
+    ),
+    "C15": dict(
+        text="Proof-partial: fetch_or_create_by_xpath/_create_by_xpath and _is_unambiguously_locatable/_derived_attributes "
+             "are modelled in Lean over the evaluator model; proved: non-locatable expressions are rejected, a single match "
+             "is returned with the tree unchanged, several matches give AmbiguousTreeError, deleting the nodes a call added "
+             "gives the old tree back (old nodes untouched), and - for paths whose prefixes are bound and whose attribute "
+             "equalities are consistent after prefix resolution - the same expression afterwards selects exactly the returned "
+             "node and a second call is a no-op (c15_created_is_selected_partial, c15_idempotent_partial; the unrestricted "
+             "statements are false for unbound prefixes, kept with counterexamples). Tie to code: the real call on generated "
+             "trees x locatable paths (relative/absolute, prefixed/unprefixed, with/without namespaces) == compiled model "
+             "(tree with identities, returned node, error class); property oracle on the implementation (re-query, second "
+             "call, old part unchanged).",
+        note=TB + "Calls run under the library's default ambient filters. Known findings: absolute path beside the root "
+             "(AssertionError), empty mapping / unbound prefix creating nodes in no namespace.",
+        technique="Lean 4 theorems (loop invariant of _create_by_xpath over the evaluator model) + differential correspondence",
+        design="3/C15",
+    ),
     "C06": dict(
         text="Proof-partial: the evaluator (axis generators by document-order position, node tests with prefix resolution, "
              "candidate list and per-predicate (position,size) renumbering, per-step and per-expression de-duplication, "
